@@ -88,7 +88,10 @@ type Outcome struct {
 	// OrLater: the reply carries no per-probe identifier (TCP SYN-ACK/RST in default mode); the
 	// property allows crediting it to any probe sent at or after TTL, never to an earlier one.
 	OrLater bool
-	Why     string
+	// Alt: further TTLs whose probes carry exactly the same wire identity as TTL's (Paris mode draws a random 32-bit
+	// sequence number per probe: two probes of one run can draw the same value). The frame answers any of them.
+	Alt []int
+	Why string
 }
 
 func rej(why string, a ...any) Outcome { return Outcome{Kind: Reject, Why: fmt.Sprintf(why, a...)} }
@@ -523,8 +526,12 @@ func refQuote(f *Flow, ip ipView, body []byte, at int64, eqType uint8) Outcome {
 		}
 		if f.V.Proto == "syn" {
 			var hit *Probe
+			var alt []int
 			for _, p := range f.Probes {
 				if p.Tick < at && p.IPID == q.id && p.Seq == seq {
+					if hit != nil {
+						alt = append(alt, hit.TTL)
+					}
 					hit = p
 				}
 			}
@@ -534,6 +541,10 @@ func refQuote(f *Flow, ip ipView, body []byte, at int64, eqType uint8) Outcome {
 			o := Outcome{Kind: Accept, TTL: hit.TTL, Dest: false, Why: "time-exceeded quoting syn probe"}
 			if undecided {
 				o.Kind = Maybe
+			}
+			if len(alt) > 0 {
+				// several probes of this run share the quoted identity: the frame is a reply to any of them
+				o.Kind, o.Alt, o.Why = Maybe, alt, "time-exceeded quoting an identity shared by several syn probes"
 			}
 			return o
 		}
